@@ -951,10 +951,17 @@ func laws(sel int, in, got []int64, law func(lsel int, lin []int64, sig string))
 	}
 	if sel == 3 {
 		h := decodeHistory(in)
+		inside := true
 		for _, v := range h.vs {
 			if v.pod.negative() || v.pod.namesCollide() || v.pod.untrackedPodLevel() || v.pod.offGrid() {
-				return
+				inside = false
 			}
+		}
+		// the decision to apply law 107 must be the extracted "every version satisfies pod_ok" (law 108), so
+		// that a wrong or over-broad guard here is a visible failure and not a silent skip
+		law(108, append([]int64{vh.B(inside)}, in...), "")
+		if !inside {
+			return
 		}
 		// after EVERY event: cached task == upstream's request of the pod object of that event, node Used too
 		for _, e := range runHistory(h) {
